@@ -75,6 +75,11 @@ def grid(tier: str) -> List[Dict[str, Any]]:
                         "sibling": True, "jitter": jit})
 
         pts.append({"q": q, "probe": probe, "id": id_, "port": port, "fam": fam, "age": age, "socks": socks, "jitter": jit})
+        if fam == "v6" and age in ("400ms", "fresh", "30s+1", "5000s"):
+            # the query arrived from a link-local address of another zone than the receiving socket's own (a socket bound to
+            # the wildcard address hears every link): the reply has to go back to that zone
+            pts.append({"q": q, "probe": probe, "id": id_, "port": port, "fam": fam, "age": age, "socks": socks, "jitter": jit,
+                        "scope": 7})
     return pts
 
 
@@ -107,7 +112,7 @@ def run_point(p: Dict[str, Any], verbose: bool = False) -> Tuple[Optional[Dict[s
         else:
             rx = [t for t in host.transports() if (t.sock.role == "listen" and not v6) or
                   (v6 and t.sock.role == "respond" and t.sock.family == socket.AF_INET6)][0]
-        src = (src_ip, p["port"], 0, 0 if p["fam"] == "v4m" else host.scope_id) if v6 else (src_ip, p["port"])
+        src = (src_ip, p["port"], 0, 0 if p["fam"] == "v4m" else p.get("scope", host.scope_id)) if v6 else (src_ip, p["port"])
         if p.get("sibling"):
             w.advance_to_ms(tq - 5000)
             sib = wire.response([("PTR", TA, 1, 4500, "neighbour._a._tcp.local."), ("PTR", "_b._tcp.local.", 1, 4500, "nb._b._tcp.local."),
@@ -215,7 +220,7 @@ def run_point(p: Dict[str, Any], verbose: bool = False) -> Tuple[Optional[Dict[s
                 problems.append(f"unicast: {len(unicasts)} unicast datagrams, expected exactly one to {src[:2]}")
             else:
                 d = unicasts[0]
-                if d.sent.dest[:2] != src[:2]:
+                if tuple(d.sent.dest) != tuple(src):
                     problems.append(f"unicast: reply sent to {d.sent.dest}, query came from {src}")
                 if d.sent.sock is not rx.sock:
                     problems.append(f"unicast: reply left through {d.sent.sock}, query arrived on {rx.sock}")
